@@ -488,3 +488,30 @@ Proof.
   intros Hu Hv Hw Ha. unfold ws_spec. rewrite Ha. simpl map_res. eexists. split; [reflexivity|].
   eapply Qeq_trans; [apply wsum_SI; exact Hu|]. apply wsum_si_sum3; assumption.
 Qed.
+
+(** A pull-based component adds no failure of its own: if every input answers for time [t],
+    so does the weighted sum (the C01 guarantee at the producers carries through the component). *)
+Lemma collect_ok (l : list (res Q)) :
+  (forall x, In x l -> exists q, x = Ok q) -> exists y, collect l = Ok y.
+Proof.
+  induction l as [|x r IH]; intros H; simpl; [eexists; reflexivity|].
+  destruct (H x (or_introl eq_refl)) as [q ->].
+  destruct IH as [y Hy]; [intros z Hz; apply H; right; exact Hz|].
+  rewrite Hy. simpl. eexists; reflexivity.
+Qed.
+
+Theorem ws_spec_no_new_errors (units : list Q) (src : nat -> Z -> res Q) (n : nat) (t : Z) :
+  (forall i, (i < n)%nat -> exists q, src i t = Ok q) -> exists q, ws_spec units src n t = Ok q.
+Proof.
+  intros H. unfold ws_spec, answers.
+  destruct (collect_ok (map (fun j => src j t) (seq 0 n))) as [y Hy].
+  - intros x Hx. apply in_map_iff in Hx. destruct Hx as (j & <- & Hj). apply in_seq in Hj. apply H. lia.
+  - rewrite Hy. simpl. eexists; reflexivity.
+Qed.
+
+Theorem pull_chain_no_new_errors (c : list (nat * adapter)) (id : nat) (f : Z -> res Q) (log : list (nat * Z)) (t : Z) :
+  (exists q, f (chain_time c t) = Ok q) ->
+  exists q, snd (pull_chain (logging_provider id f) (fun _ _ s => s) c log t) = Ok q.
+Proof.
+  intros [q Hq]. rewrite callback_time_main. simpl. rewrite Hq. simpl. eexists; reflexivity.
+Qed.
